@@ -206,9 +206,10 @@ def splitWrap (l : List (Schedule K)) : List (Schedule K) :=
 
 def insertByStart (s : Schedule K) : List (Schedule K) → List (Schedule K)
   | [] => [s]
-  | q :: qs => if mdLt s.start q.start then s :: q :: qs else q :: insertByStart s qs
+  | q :: qs => if mdLe s.start q.start then s :: q :: qs else q :: insertByStart s qs
 
-/-- `self._schedule.sort(key=lambda x: x.start)` (stable) -/
+/-- `self._schedule.sort(key=lambda x: x.start)` (stable: elements are inserted from the right,
+    each one BEFORE the already placed elements with an equal start) -/
 def sortByStart (l : List (Schedule K)) : List (Schedule K) := l.foldr insertByStart []
 
 /-- tou_tariff.py:94-99 -/
@@ -236,10 +237,14 @@ def load (raws : List (Raw K)) : Except Err (List (Schedule K)) := do
   let ss ← raws.mapM loadSchedule
   pure (sortByStart (splitWrap ss))
 
-/-- `get_tariff` on the fields of a datetime (tou_tariff.py:110-125) -/
-def getTariff (l : List (Schedule K)) (md : Nat × Nat) (wd h m s : Nat) : Except Err K := do
+/-- `get_tariff` once the hour value is known (tou_tariff.py:112, 118-125) -/
+def getTariffH (l : List (Schedule K)) (md : Nat × Nat) (wd : Nat) (hour : Rat) : Except Err K := do
   let sch ← selectSchedule l md wd
-  lookup sch.tariffs (targetHour h m s).toRat
+  lookup sch.tariffs hour
+
+/-- `get_tariff` on the fields of a datetime (tou_tariff.py:110-125) -/
+def getTariff (l : List (Schedule K)) (md : Nat × Nat) (wd h m s : Nat) : Except Err K :=
+  getTariffH l md wd (targetHour h m s).toRat
 
 /-- `get_demand_charge` on the fields of a datetime (tou_tariff.py:147-158) -/
 def getDemand (l : List (Schedule K)) (md : Nat × Nat) (wd : Nat) : Except Err K := do
